@@ -169,5 +169,7 @@ FreshThreadDefaults == O!FreshThreadDefaults
 Restore             == O!Restore
 RejectAtomic        == O!RejectAtomic
 CallIsolation       == O!CallIsolation
+OptionLaws == ThreadIsolation /\ FreshThreadDefaults /\ Restore /\ RejectAtomic /\ CallIsolation /\ O!HeapUntouched
+OptionLawsOnEveryStep == [][OptionLaws']_vars        \* `last` is outside the VIEW: check on every transition
 AllDone == \A t \in Threads : t \in alive /\ pc[t] > Len(script[t])
 =============================================================================
